@@ -218,11 +218,11 @@ Crash ==      \* the process generation ended (killed, or simply exited)
   /\ Step
   /\ UNCHANGED <<due, onDisk, durable, dir, freq, keep, isasync, restoredOlder, rfrom, savedp, ulabels>>
 
-(* C10 / C11: restore outcome *)
+(* C10 / C11: restore outcome.  Ev.req is the step the caller asked for, -1 when none was given (0 is a valid label) *)
 RestoreOK ==
   /\ Running /\ Ev.e = "restore_ok"
   /\ LET src == onDisk[Ev.src]
-         chosen == IF Ev.req > 0 THEN Ev.req ELSE (IF src = {} THEN 0 ELSE SetMax(src))
+         chosen == IF Ev.req >= 0 THEN Ev.req ELSE (IF src = {} THEN 0 ELSE SetMax(src))
          \* the iteration the chosen checkpoint carries: its label, unless the user labelled it
          content == IF \E x \in ulabels : x[1] = chosen THEN (CHOOSE x \in ulabels : x[1] = chosen)[2] ELSE chosen
      IN
@@ -230,9 +230,9 @@ RestoreOK ==
      ELSE IF ~T.fullconfig /\ Ev.route = "restore" THEN Reject("C10", "restore: succeeded without a configuration file")
      \* with a writer of the same process still in flight the latest step may have been committed after the
      \* listing was taken: then any save point at or beyond the listed maximum is the latest completed step
-     ELSE IF Ev.inflight /\ Ev.req = 0 /\ ~(Ev.iter >= chosen /\ Ev.iter \in (src \cup due[Ev.src]))
+     ELSE IF Ev.inflight /\ Ev.req < 0 /\ ~(Ev.iter >= chosen /\ Ev.iter \in (src \cup due[Ev.src]))
        THEN Reject("C10", "restore: the restored iteration is not a completed save point at or beyond the listed latest step")
-     ELSE IF ~(Ev.inflight /\ Ev.req = 0) /\ Ev.iter # content
+     ELSE IF ~(Ev.inflight /\ Ev.req < 0) /\ Ev.iter # content
        THEN Reject("C10", "restore: the restored iteration is not the one the requested / latest completed checkpoint carries")
      ELSE IF Ev.vtag = Bad \/ Ev.gtag = Bad \/ Ev.htag = Bad
        THEN Reject("C11", "restore: restored arrays match no iterate of the run (torn or mixed checkpoint)")
@@ -267,11 +267,14 @@ RestoreFailed ==
      THEN (IF Ev.exc # "FileNotFoundError" THEN Reject("C10", "restore without a configuration file must raise FileNotFoundError")
            ELSE Step /\ iter' = -1 /\ UNCHANGED <<incall, due, onDisk, durable, lastCall, prevCall, dir, freq, keep, isasync, crashed, expectSave, restoredOlder, rfrom, savedp, ulabels>>)
      ELSE IF src = {}
-     THEN (IF Ev.exc # "ValueError" THEN Reject("C10", "restore with no completed checkpoint must raise ValueError")
+     \* (a process killed while its solver was being constructed may not even have left the configuration file: then
+     \* the other documented error, FileNotFoundError, is the clean failure)
+     THEN (IF Ev.exc # "ValueError" /\ ~(T.hadcrash /\ Ev.exc = "FileNotFoundError")
+             THEN Reject("C10", "restore with no completed checkpoint must raise ValueError")
            ELSE Step /\ iter' = -1 /\ UNCHANGED <<incall, due, onDisk, durable, lastCall, prevCall, dir, freq, keep, isasync, crashed, expectSave, restoredOlder, rfrom, savedp, ulabels>>)
      \* an explicit step that is absent, or that retention was already deleting when the process was
      \* killed (a half-deleted directory), may fail - it must never return data (see RestoreOK)
-     ELSE IF Ev.req > 0 /\ (Ev.req \notin src \/ (T.hadcrash /\ Ev.req \notin Largest(keep, src)))
+     ELSE IF Ev.req >= 0 /\ (Ev.req \notin src \/ (T.hadcrash /\ Ev.req \notin Largest(keep, src)))
      THEN Step /\ iter' = -1 /\ UNCHANGED <<incall, due, onDisk, durable, lastCall, prevCall, dir, freq, keep, isasync, crashed, expectSave, restoredOlder, rfrom, savedp, ulabels>>
      ELSE Reject("C11", "restore: failed although a completed checkpoint exists")
 
